@@ -1,11 +1,11 @@
 #!/bin/sh
 # confirm + evaluate every finished round-2 seed that is not stored yet
 cd /verif
-for d in /tmp/seed2-*/_out; do
+for d in /tmp/seed2-*/_out /tmp/seed3-*/_out; do
   [ -d "$d" ] || continue
-  p=$(basename $(dirname $d) | sed 's/seed2-//')
+  r=$(basename $(dirname $d) | sed "s/seed\([23]\)-.*/\1/"); p=$(basename $(dirname $d) | sed "s/seed[23]-//")
   for k in 1 2; do
-    id="$p-r2-$k"
+    id="$p-r$r-$k"
     [ -f "$d/meta$k.json" ] && [ -f "$d/change$k.diff" ] && [ -f "$d/demo$k.py" ] || continue
     [ -d "seeded/$id" ] && continue
     [ -f "/tmp/seedq-$id.tried" ] && continue
